@@ -227,6 +227,15 @@ class Ctx:
                     os.remove(out)
         return bad
 
+    def validate_drift(self, module, records, cfg=None, **kw):
+        """Validate against a MODEL (implementation-shaped) spec: mismatches are MODEL-DRIFT information only."""
+        bad = self._validate_raw(module, records, cfg, **kw)
+        for rec, clause in bad[:20]:
+            self.drift.append("%s: %s" % (clause, json.dumps(_shorten(rec, 300))))
+        self.coverage_extra.setdefault("model_conformance", {})[module] = {"lines": len(records), "drift": len(bad)}
+        self.log("model conformance %s: %d lines, %d drift" % (module, len(records), len(bad)))
+        return bad
+
     def validate(self, module, records, driver=None, cfg=None, **kw):
         bad = self._validate_raw(module, records, cfg, **kw)
         self.records_count = getattr(self, "records_count", 0) + len(records)
